@@ -19,6 +19,7 @@ import (
 	"encoding/hex"
 	"fmt"
 	"math/big"
+	"os"
 	"path/filepath"
 	"sort"
 	"strings"
@@ -101,6 +102,11 @@ func c18genAllowedList(c *Ctx, file string) []string {
 
 func c18genEffects(c *Ctx) {
 	c.res.Rule += "; effects-module: every list of the regenerated Lean module Gen.C18Effects and of Ref.C18Allowed decoded by the driver and compared with the harness's own scan / the corpus text files; merge checkers and name coding on random inputs"
+	if ok, msg := c18genSelfTest(); !ok {
+		c.Oracle("c18-scan", false, "c18-scanner-selftest-failed", "synthetic package q (shared types, lazy fields, sync, go, chan)", msg)
+	} else {
+		c.Oracle("c18-scan", true, "", "scanner self-test 2: shared types through pointers, maps and interface variables; 2 writes to fields of shared objects found, instance-only state and read-only use not reported; sync / go / chan uses", "")
+	}
 	sc, err := c18ScanRepo(c06RepoDir())
 	if err != nil {
 		c.Oracle("c18-scan", false, "c18-scan-failed", c06RepoDir(), err.Error())
@@ -164,8 +170,8 @@ func c18genEffects(c *Ctx) {
 			}
 		}
 	}
-	check("sharedWrites", sc.Writes, " -> ", true, "", "")   // oracle: suite C18 (shared-write:...)
-	check("escapes", sc.Escapes, " => ", true, "", "")       // oracle: suite C18 (global-escape:...)
+	check("sharedWrites", sc.Writes, " -> ", true, "", "") // oracle: suite C18 (shared-write:...)
+	check("escapes", sc.Escapes, " => ", true, "", "")     // oracle: suite C18 (global-escape:...)
 	check("sharedTypeWrites", sc.SharedTypeWrites, " ~> ", true, "shared-type-write",
 		"a field of a struct type of which an instance is reachable from a package-level variable is written after construction (outside constructors and init-time code): every goroutine that was handed the shared instance writes the same memory — e.g. tables built lazily on first use; not in the reviewed list corpus/C18/allowed-shared-type-writes.txt")
 	check("syncUses", sc.SyncUses, ": ", true, "sync-use",
@@ -360,4 +366,99 @@ func c18genEffects(c *Ctx) {
 		c.Cmp("effects-coding", "c18g enc "+hex.EncodeToString([]byte(n)), code.String())
 		c.Cmp("effects-coding", "c18g dec "+code.String(), n)
 	}
+}
+
+// ---- self-test of the scanner additions on a synthetic package (run on every check) ----
+
+const c18genSelfSrc = `package q
+
+import (
+	"sync"
+	"sync/atomic"
+)
+
+type Field struct{ exp []int; size int; hits int64 }
+type Poly struct{ f *Field; c []int }
+type Sampler interface{ Sample() int }
+type defaultSampler struct{ scratch []int }
+type Local struct{ n int }
+
+var QR = NewField(256)
+var tables = map[int]*Field{}
+var sampler Sampler = &defaultSampler{}
+var mu sync.Mutex
+var ready int32
+var consts = []int{1, 2}
+var any0 interface{} = &Local{}
+
+func NewField(n int) *Field { f := &Field{size: n}; f.exp = make([]int, n); return f }
+func init() { tables[256] = QR }
+
+func (f *Field) Exp(i int) int { f.build(); return f.exp[i] }
+func (f *Field) build() { if f.exp == nil { f.exp = make([]int, f.size) } }
+func (f *Field) Count() { atomic.AddInt64(&f.hits, 1) }
+func (p *Poly) Eval(x int) int { return p.f.Exp(x) + p.c[0] }
+func (s *defaultSampler) Sample() int { s.scratch = append(s.scratch[:0], 1); return len(s.scratch) }
+func (l *Local) Bump() { l.n++ }
+func Locked() int { mu.Lock(); defer mu.Unlock(); return consts[0] }
+func Spawn() { go Locked() }
+func Pipe() int { ch := make(chan int, 1); ch <- 1; return <-ch }
+func ReadOnly() int { return consts[1] + QR.size }
+`
+
+func c18genSelfTest() (bool, string) {
+	dir, err := os.MkdirTemp("", "c18genself")
+	if err != nil {
+		return false, err.Error()
+	}
+	defer os.RemoveAll(dir)
+	os.MkdirAll(filepath.Join(dir, "q"), 0o755)
+	os.WriteFile(filepath.Join(dir, "q", "q.go"), []byte(c18genSelfSrc), 0o644)
+	sc, err := c18ScanRepo(dir)
+	if err != nil {
+		return false, err.Error()
+	}
+	var mutable []string
+	for i, v := range sc.Vars {
+		if !sc.InitOnly[i] {
+			mutable = append(mutable, v)
+		}
+	}
+	want := map[string]string{
+		// Field (QR, tables), Poly is NOT reachable from a variable, defaultSampler through the interface variable,
+		// Local only through interface{} (not followed)
+		"shared-types": "q.Field q.defaultSampler",
+		// lazily built table, a counter and a scratch buffer inside objects that are shared; Local.n is instance state
+		// a lazily built table and a scratch buffer inside objects that are shared (the function that assigns the field is
+		// named; Exp, which only calls build, is not).  Local.n and Poly.f are instance state of types no variable holds:
+		// in instance-writes, not here.  atomic.AddInt64(&f.hits, 1) is a call into the standard library — not seen as a
+		// write (documented unsoundness), which is why every mention of sync / sync/atomic is listed separately.
+		"shared-type-writes": "q.(*Field).build ~> q.Field.exp | q.(*defaultSampler).Sample ~> q.defaultSampler.scratch",
+		"instance-writes":    "q.Field.exp q.Local.n q.Poly.f q.defaultSampler.scratch",
+		"sync-uses":          "q.(*Field).Count: sync/atomic.AddInt64 | q.mu: sync.Mutex",
+		"go-stmts":           "q.Spawn",
+		"chan-ops":           "q.Pipe",
+		"init-writes":        "q.init -> q.tables",
+		"init-funcs":         "q.init",
+		"runtime-vars":       "",
+	}
+	got := map[string]string{
+		"shared-types":       strings.Join(sc.SharedTypes, " "),
+		"shared-type-writes": strings.Join(sc.SharedTypeWrites, " | "),
+		"instance-writes":    strings.Join(sc.InstWrites, " "),
+		"sync-uses":          strings.Join(sc.SyncUses, " | "),
+		"go-stmts":           strings.Join(sc.GoStmts, " "),
+		"chan-ops":           strings.Join(sc.ChanOps, " "),
+		"init-writes":        strings.Join(sc.InitWrites, " | "),
+		"init-funcs":         strings.Join(sc.InitFuncs, " "),
+		"runtime-vars":       strings.Join(mutable, " "),
+	}
+	var bad []string
+	for k, w := range want {
+		if got[k] != w {
+			bad = append(bad, fmt.Sprintf("%s: got %q want %q", k, got[k], w))
+		}
+	}
+	sort.Strings(bad)
+	return len(bad) == 0, strings.Join(bad, "\n")
 }
